@@ -517,6 +517,7 @@ impl World {
 			"crash" => "C10",
 			"onchain" => "C07",
 			"justice" => "C06",
+			"tamper" => "C05",
 			"asyncpersist" => "C09",
 			_ => {
 				if forwarder {
@@ -533,6 +534,7 @@ impl World {
 			"C04" => "C04",
 			"C10" => "C10",
 			"C06" => "C06",
+			"C05" => "C05",
 			"C09" => "C09",
 			_ => "C07",
 		}
